@@ -536,6 +536,7 @@ class Sched:
         self.lock = None
         self.abort = False
         self.steps = 0
+        self.traced_funcs = TRACED_FUNCS
 
     # -- called in worker threads
     def _park(self, i):
@@ -547,7 +548,7 @@ class Sched:
     def trace(self, frame, event, arg):
         co = frame.f_code
         fn = co.co_filename
-        if not fn.endswith(TRACED) or co.co_name not in TRACED_FUNCS:
+        if not fn.endswith(TRACED) or co.co_name not in self.traced_funcs:
             return None
         i = self.tid_of.get(threading.get_ident())
         if i is None:
@@ -677,6 +678,10 @@ THREAD_HARNESSES = [
     ('three-mixed', [("compare($a, $b, $c)", {'a': 'a', 'b': 'A', 'c': UCA + '?lang=xx_CI'}),
                      ("distinct-values($q, $c)", {'q': ['a', 'A'], 'c': UCA + '?lang=de_DE'}),
                      ("matches('x1', '\\p{L}\\d')", None)]),
+    # both threads need the lazily built complement of all Unicode blocks (built on first use inside UnicodeData.block);
+    # scheduling points: the lines of UnicodeData.block only (one per block subtracted), one preemption
+    # U+2FE0 belongs to no block (between Kangxi Radicals and Ideographic Description Characters)
+    ('two-noblock-regexes', [("matches($s, '\\p{IsNoBlock}')", {'s': '\u2fe0'}), ("matches($s, '^[\\p{IsNoBlock}]b$')", {'s': '\u2fe0b'})]),
 ]
 
 
@@ -684,6 +689,9 @@ def run_threads(unit, tier, acc):
     from elementpath import ElementPathError
     name, specs = THREAD_HARNESSES[unit['harness']]
     bound = unit['bound'] if len(specs) < 3 else min(unit['bound'], 2 if tier != 'quick' else 1)
+    noblock = name == 'two-noblock-regexes'
+    if noblock:
+        bound = 1   # several hundred scheduling points per thread
     installed = ['en_US.UTF-8', 'de_DE.UTF-8', 'xx_CI.UTF-8']
     # sequential reference results
     ref = []
@@ -705,12 +713,18 @@ def run_threads(unit, tier, acc):
             for k, v in vars(US).items():
                 if k.endswith('__subsets_cache'):
                     v.clear()
+            ud = vars(US).get('__unicode_data')
+            if ud is not None:   # the lazily built 'NoBlock' subset is rebuilt in every execution
+                ud._blocks.pop('NoBlock', None)
+                ud._unicode_blocks.pop('NOBLOCK', None)
         except Exception:  # noqa
             pass
         vl = VirtualLocale(installed, 'C')
         bodies = [_mk_eval(src, v) for src, v in specs]
 
         def finish(s):
+            if noblock:
+                s.traced_funcs = {'block'}
             lock = TrackedLock(s)
             s.lock = lock
             install(vl, lock)
